@@ -123,6 +123,7 @@ static Verdict validate(const std::string &source) {
     } else if (t == Token::DATA) {
       if (off & 3) fail(1, "DATA not word aligned" + at);
       uint32_t w; memcpy(&w, b, 4); if (size != 4 || w != (uint32_t)d->getValue()) fail(1, "DATA word differs" + at);
+      if (i < lines.size() && lines[i].text != "DATA " + std::to_string((int32_t)w)) fail(2, "listing shows '" + lines[i].text + "' for the DATA word " + std::to_string((int32_t)w) + at);
     } else if (t == Token::PADDING) {
       for (size_t q = 0; q < size; q++) if (b[q] != 0) fail(1, "non-zero padding" + at);
     } else {
@@ -138,7 +139,9 @@ static Verdict validate(const std::string &source) {
           if (it == labels.end()) fail(1, "reference to undeclared label accepted" + at);
           else {
             long target = it->second->getValue();
-            if (r->isRelative()) { long reach = (long)off + (long)size + (long)(int32_t)operand; if (reach != target) fail(1, "relative reference reaches " + std::to_string(reach) + ", label is at " + std::to_string(target) + at); }
+            // the addressing form is the property's (by mnemonic), not whatever the directive object says about itself
+            bool relByMnemonic = t == Token::BR || t == Token::BRZ || t == Token::BRN || t == Token::LDAP || t == Token::LDAI || t == Token::LDBI || t == Token::STAI;
+            if (relByMnemonic) { long reach = (long)off + (long)size + (long)(int32_t)operand; if (reach != target) fail(1, "relative reference reaches " + std::to_string(reach) + ", label is at " + std::to_string(target) + at); }
             else { if (target & 3) fail(1, "absolute reference to unaligned label accepted" + at); else if ((long)(int32_t)operand != (target >> 2)) fail(1, "absolute reference encodes " + std::to_string((int)operand) + ", label word address is " + std::to_string(target >> 2) + at); }
             // listing shows the operand in parentheses
             if (i < lines.size()) { std::string want2 = "(" + std::to_string((int)operand) + ")"; if (lines[i].text.find(want2) == std::string::npos) fail(2, "listing operand differs from encoded operand" + at); }
@@ -174,7 +177,9 @@ static std::string genProgram(std::mt19937_64 &rng, bool big) {
     int kind = rng() % 8;
     if (kind <= 2) { int g = gaps[rng() % (big ? 26 : 20)]; if (rng() % 3 == 0) g = rng() % 40; for (int i = 0; i < g; i++) o << "LDAC 0\n"; }
     else if (kind == 3) { o << "L" << (rng() % nl) << "\n"; declared++; }
-    else if (kind == 4) { o << "L" << (rng() % nl) << "\nDATA " << (int)(rng() % 1000) - 500 << "\n"; declared++; }
+    else if (kind == 4) {
+      static const char *BIG[] = {"-2147483648", "2147483647", "-1000000000", "-999999999", "3000000000", "4294967295", "1000000000", "-2147483647"};
+      o << "L" << (rng() % nl) << "\nDATA "; if (rng() % 4 == 0) o << BIG[rng() % 8]; else o << (int)(rng() % 1000) - 500; o << "\n"; declared++; }
     else if (kind == 5) { o << REL[rng() % 7] << " L" << (rng() % nl) << "\n"; }
     else if (kind == 6) { o << ABS[rng() % 5] << " L" << (rng() % nl) << "\n"; }
     else if (kind == 7 && rng() % 2) {   // forward absolute reference; the label's alignment depends on how the branch in between grows
